@@ -274,4 +274,104 @@ theorem main_name_start (st : St) (pos : Nat) (hm : st.mode = .main) :
   rw [step_hit st 47 pos (Or.inr ⟨isNONSPC, by simp [hm, searchClass], h47⟩)]
   simp [atHit, hm, parseMainHit]
 
+/-! ### hexadecimal strings -/
+
+/-- ISO 32000-1 7.3.4.3: pairs of hexadecimal digits; a final odd digit is followed by an assumed 0. -/
+def pairUp : Bytes → Bytes
+  | [] => []
+  | [a] => [UInt8.ofNat (hexCharVal a * 16)]
+  | a :: b :: t => UInt8.ofNat (hexCharVal a * 16 + hexCharVal b) :: pairUp t
+
+theorem hexbody_facts : ∀ c : UInt8,
+    (!(isHEX c || isSPC c) || (!isEND_HEX_STRING c && c != 60)) = true :=
+  forall_byte _ (by decide +kernel)
+
+theorem hex_byte_facts : (isEND_HEX_STRING 62 && isNONSPC 60 && isNONSPC 62) = true := by decide +kernel
+
+theorem hexPairs_even : ∀ (n : Nat) (ds : Bytes), ds.length = 2 * n → (∀ c ∈ ds, isHEX c = true) →
+    hexPairs ds = some (pairUp ds)
+  | 0, ds, hl, _ => by
+    have : ds = [] := by cases ds with
+      | nil => rfl
+      | cons _ _ => simp at hl
+    subst this; rfl
+  | n + 1, ds, hl, hh => by
+    match ds, hl, hh with
+    | a :: b :: t, hl, hh =>
+      have ha := hh a (by simp)
+      have hb := hh b (by simp)
+      have ih := hexPairs_even n t (by simp at hl; omega) (fun x hx => hh x (by simp [hx]))
+      have h1 := hex_digit a
+      have h2 := hex_digit b
+      simp only [ha, hb, Bool.not_true, Bool.false_or, digitBelow] at h1 h2
+      split at h1
+      · rename_i x hx
+        split at h2
+        · rename_i y hy
+          simp [hexPairs, ha, hb, hx, hy, ih, pairUp, hexCharVal]
+        · simp at h2
+      · simp at h1
+    | [_], hl, _ => simp at hl; omega
+    | [], hl, _ => simp at hl
+
+/-- `<` in the main scanner, the body (hex digits and white space anywhere), `>`: one string token
+    with the value of the digit pairs; the `>` leaves the tokenizer in `_parse_wclose`. -/
+theorem hex_spelling (st : St) (hm : st.mode = .main) (body : Bytes) (pos : Nat) (n : Nat)
+    (hb : ∀ c ∈ body, isHEX c = true ∨ isSPC c = true)
+    (heven : (body.filter (fun c => !isSPC c)).length = 2 * n) :
+    foldBytes st (60 :: body ++ [62]) pos =
+      ({ st with tpos := pos + 1 + body.length, cur := [], mode := .wclose },
+       [(pos, Token.str (pairUp (body.filter (fun c => !isSPC c))))]) := by
+  have hf := hex_byte_facts
+  simp only [Bool.and_eq_true] at hf
+  -- `<`
+  have s1 : stepByte st 60 pos = ({ st with tpos := pos, cur := [], mode := .wopen }, []) := by
+    rw [step_hit st 60 pos (Or.inr ⟨isNONSPC, by simp [hm, searchClass], hf.1.2⟩)]
+    have d60 : isDigit 60 = false := by decide
+    have a60 : isAlpha 60 = false := by decide
+    simp [atHit, hm, parseMainHit, d60, a60]
+  -- the byte after `<` is not `<`: the wopen scanner hands over to the hexstring scanner
+  have hnot60 : ∀ c ∈ body ++ [62], (c == 60) = false := by
+    intro c hc
+    rcases List.mem_append.mp hc with h | h
+    · have := hexbody_facts c
+      have hor : (isHEX c || isSPC c) = true := by rcases hb c h with h | h <;> simp [h]
+      simp only [hor, Bool.not_true, Bool.false_or, Bool.and_eq_true] at this
+      simpa using this.2
+    · simp at h; subst h; decide
+  have s2 : ∀ (c : UInt8) (tl : Bytes) (p : Nat), (c == 60) = false →
+      foldBytes { st with tpos := pos, cur := [], mode := .wopen } (c :: tl) p =
+      foldBytes { st with tpos := pos, cur := [], mode := .hexstring } (c :: tl) p := by
+    intro c tl p hc
+    simp only [foldBytes]
+    rw [step_hit { st with tpos := pos, cur := [], mode := .wopen } c p (Or.inl (by simp [searchClass]))]
+    simp [atHit, parseWopenHit, hc]
+  have hne : ∀ x ∈ body, isEND_HEX_STRING x = false := by
+    intro c h
+    have := hexbody_facts c
+    have hor : (isHEX c || isSPC c) = true := by rcases hb c h with h | h <;> simp [h]
+    simp only [hor, Bool.not_true, Bool.false_or, Bool.and_eq_true] at this
+    simpa using this.1
+  have hdig : ∀ c ∈ body.filter (fun c => !isSPC c), isHEX c = true := by
+    intro c hc
+    have hm' := List.mem_filter.mp hc
+    rcases hb c hm'.1 with h | h
+    · exact h
+    · simp [h] at hm'
+  have hpairs := hexPairs_even n _ heven hdig
+  simp only [List.cons_append, foldBytes, s1, List.nil_append]
+  have hsplit : body ++ [62] = (body ++ [62]).head (by simp) :: (body ++ [62]).tail := by simp
+  rw [hsplit, s2 _ _ _ (hnot60 _ (List.head_mem _)), ← hsplit]
+  rw [fold_nonmatch isEND_HEX_STRING body [62] _ (pos + 1) (by simp [searchClass]) hne]
+  simp only [foldBytes]
+  rw [step_hit _ 62 _ (Or.inr ⟨isEND_HEX_STRING, by simp [searchClass], hf.1.1⟩)]
+  have hacc : (accum { st with tpos := pos, cur := [], mode := .hexstring } body).cur = body := by simp [accum]
+  have hmode : (accum { st with tpos := pos, cur := [], mode := .hexstring } body).mode = .hexstring := by simp
+  have htp : (accum { st with tpos := pos, cur := [], mode := .hexstring } body).tpos = pos := by simp [accum]
+  simp only [atHit, hmode, parseHexstringHit, hacc, hpairs, Bool.false_eq_true, if_false]
+  rw [step_hit _ 62 _ (Or.inr ⟨isNONSPC, by simp [searchClass], hf.2⟩)]
+  have d62 : isDigit 62 = false := by decide
+  have a62 : isAlpha 62 = false := by decide
+  simp [atHit, parseMainHit, emit, htp, accum, d62, a62]
+
 end PdfVerif.Lexer
